@@ -147,6 +147,9 @@ func adversarial() []advCase {
 		add(tp, "lookups-50x50", lookupAliased(50, 50))
 		add(tp, "lookups-70x80", lookupAliased(70, 80))
 	}
+	add("gtab.Read/GSUB", "ext-lookups-50x50", lookupAliasedExt(7, 50, 50))
+	add("gtab.Read/GSUB", "ext-lookups-60x98", lookupAliasedExt(7, 60, 98))
+	add("gtab.Read/GPOS", "ext-lookups-60x98", lookupAliasedExt(9, 60, 98))
 	add("kern.Read", "overlapping-subtables", kernOverlapping(65535))
 	add("gtab.Read/GSUB", "gsub2_1-aliased-sequences-2000", gsub2Aliased(2000))
 	add("gtab.Read/GSUB", "gsub2_1-aliased-sequences-16000", gsub2Aliased(16000))
@@ -183,4 +186,50 @@ func kernOverlapping(n int) []byte {
 		b = append(b, blk...)
 	}
 	return b
+}
+
+// lookupAliasedExt: like lookupAliased, but every lookup is an extension
+// lookup whose subtable offsets all point at ONE extension record, which in
+// turn points at one coverage-heavy subtable (GSUB 1.1 / GPOS 1.1 shaped: the
+// format word, a coverage offset and one more word).
+func lookupAliasedExt(extType, nLookups, nSub int) []byte {
+	var b []byte
+	b = append(b, 0, 1, 0, 0)
+	b = append(b, u16(10)...)
+	b = append(b, u16(12)...)
+	b = append(b, u16(14)...)
+	b = append(b, 0, 0)
+	b = append(b, 0, 0)
+	ll := u16(nLookups)
+	lookupOff := 2 + 2*nLookups
+	for i := 0; i < nLookups; i++ {
+		ll = append(ll, u16(lookupOff)...)
+	}
+	subOff := 6 + 2*nSub
+	lt := append(u16(extType), u16(0)...)
+	lt = append(lt, u16(nSub)...)
+	for i := 0; i < nSub; i++ {
+		lt = append(lt, u16(subOff)...)
+	}
+	// the extension record: format 1, type 1, 32-bit offset 8
+	lt = append(lt, 0, 1, 0, 1, 0, 0, 0, 8)
+	var sub []byte
+	if extType == 7 {
+		// GSUB 1.1: format 1, coverage offset 6, delta 1
+		sub = append(u16(1), u16(6)...)
+		sub = append(sub, u16(1)...)
+	} else {
+		// GPOS 1.1: format 1, coverage offset 6, valueFormat 0
+		sub = append(u16(1), u16(6)...)
+		sub = append(sub, u16(0)...)
+	}
+	// coverage format 2: one range 0..65534
+	sub = append(sub, u16(2)...)
+	sub = append(sub, u16(1)...)
+	sub = append(sub, u16(0)...)
+	sub = append(sub, u16(65534)...)
+	sub = append(sub, u16(0)...)
+	lt = append(lt, sub...)
+	ll = append(ll, lt...)
+	return append(b, ll...)
 }
